@@ -56,6 +56,10 @@ func (x *RoundRobin) Set(nodes ...*Node) {
 func (x *RoundRobin) Next() *Node {
 	x.locker.Lock()
 	defer x.locker.Unlock()
-	n := atomic.AddUint32(&x.next, 1)
-	return x.nodes[(int(n)-1)%len(x.nodes)]
+	// keep the cursor reduced modulo the pool size: a free-running uint32 counter
+	// wraps to 0 after 2^32 calls, which used to yield index -1 (panic) and, for pool
+	// sizes that do not divide 2^32, breaks the cyclic order at the wrap-around.
+	idx := atomic.LoadUint32(&x.next) % uint32(len(x.nodes))
+	atomic.StoreUint32(&x.next, idx+1)
+	return x.nodes[idx]
 }
